@@ -88,7 +88,7 @@ var zzReadForms = []string{"variable", "var-statement", "parameter", "list-liter
 	"go-argument", "closure-result-after-defer", "two-targets-from-one-element", "variadic-parameter", "return-list",
 	"left-operand-of-binary-operator", "left-operand-of-comparison", "spread-assignment", "spread-var",
 	"value-ok-form", "spread-argument", "deferred-spread-argument", "switch-subject", "in-item", "map-literal-key", "indexed-container", "for-in-variable",
-	"left-operand-with-right-operand-shapes", "indexed-typed-container", "sliced-typed-container", "typed-map-literal-key"}
+	"left-operand-with-right-operand-shapes", "indexed-typed-container", "sliced-typed-container", "typed-map-literal-key", "implicit-result-after-defer"}
 
 // ZZ_C10_read_is_a_value: container kind x receiving form; old and new
 // payloads symbolic.
@@ -282,6 +282,11 @@ func ZZ_C10_read_is_a_value() {
 		src = "m = map[int64]int64{" + p0 + ": func() { " + p0 + " = wnew; return 1 }()}; [m[vold] ?? 0]"
 		want = []int64{1}
 		zz.Assume(v0 != w)
+	case 30:
+		// the value of the last expression statement is the invocation's result:
+		// a deferred store does not alter it
+		src = "f = func() { defer func() { " + p0 + " = wnew }(); " + p0 + " }; [f()]"
+		want = []int64{v0}
 	case 16, 17:
 		// `x, y = c` spreads a slice over its targets
 		if ck != 0 && ck != 1 {
